@@ -769,11 +769,18 @@ def eliminate_out_pointers(f):
                     decls[x["id"]] = tgt
     for pid, tgt in decls.items():
         derefs, others = [], 0
+        arrows = []
         for x in walk(f.body):
             if x["kind"] == "UnaryOperator" and x.get("opcode") == "*":
                 c = strip(kids(x)[0], casts=True)
                 if c["kind"] == "DeclRefExpr" and c["ref"]["id"] == pid:
                     derefs.append(x)
+            if x["kind"] == "MemberExpr" and x.get("isArrow"):
+                c = kids(x)[0]
+                while c["kind"] in ("ImplicitCastExpr", "ParenExpr"):
+                    c = kids(c)[0]
+                if c["kind"] == "DeclRefExpr" and c["ref"]["id"] == pid:
+                    arrows.append(x)
         # references inside unevaluated operands (sizeof) and in comparisons with NULL do not count: &x is never NULL
         ignore = set()
         for x in walk(f.body):
@@ -785,12 +792,15 @@ def eliminate_out_pointers(f):
                     if u["kind"] == "DeclRefExpr" and u["ref"].get("id") == pid and v["kind"] == "IntegerLiteral":
                         ignore.add(id(u))
         nrefs = sum(1 for x in walk(f.body) if x["kind"] == "DeclRefExpr" and x["ref"].get("id") == pid and id(x) not in ignore)
-        if nrefs != len(derefs) or not derefs:
+        if nrefs != len(derefs) + len(arrows) or not (derefs or arrows):
             continue
         for d in derefs:
             for k_ in list(d.keys()):
                 del d[k_]
             d.update(copy.deepcopy(tgt))
+        for a_ in arrows:
+            a_["isArrow"] = False            # p->f with p == &x  is  x.f
+            a_["inner"] = [copy.deepcopy(tgt)]
         # the pointer itself is dead now: drop its declaration (and the assertions about it)
         for x in walk(f.body):
             ch = x.get("inner")
